@@ -58,8 +58,8 @@ func TestVerifC19Keepstore(t *testing.T) {
 			out.Write(map[string]interface{}{"ev": "refuse", "status": w.Code})
 			continue
 		}
-		obs, where := vC19Observe(reqs, []vC19Concrete{tok})
-		out.Write(map[string]interface{}{"ev": "forward", "obs": obs, "where": where, "nreq": len(reqs), "status": w.Code})
+		obs := vC19Observe(reqs, []vC19Concrete{tok})
+		out.Write(map[string]interface{}{"ev": "forward", "obs": obs, "nreq": len(reqs), "status": w.Code})
 	}
 	fmt.Println("VERIF-DRIVER-DONE scenarios:", len(scns))
 	_ = http.StatusOK
